@@ -273,8 +273,10 @@ impl World {
         // a command that changes objects is then rejected by the pre-save
         // listener after it has been applied to a copy of the aggregate --
         // nothing of it may stay behind, in memory or in the audit log
-        let faulty = !self.cas.is_empty() && pick >= 8
-            && self.rng.below(100) < 7;
+        // (only steps that are commands on a CA: a failing write during a
+        // restart, a snapshot job or a task pump is a matter for C08)
+        let faulty = !self.cas.is_empty() && (8..71).contains(&pick)
+            && self.rng.below(100) < 9;
         if faulty {
             krill::verif::set_fault_mode(
                 krill::verif::FaultMode::ErrorAt(1),
